@@ -135,8 +135,13 @@ def c01(tier, seed):
         raw = int(obs.stats.get('nontrivial', 0)) - named * len(PLACES)
         config_variants(obs, work, [dict(VP_MODE='read', VP_FORMATS='all', VP_REPS=reps(tier, 100, 5000)), dict(VP_MODE='read', VP_FORMATS='all', VP_REPS=50, VP_PLACE=1),
                                     dict(VP_MODE='raw', VP_FORMATS='all', VP_REPS=64)], seed)
+        # the same getter called repeatedly by name inside one optimised function while the buffer changes in between
+        dj = [dict(VP_MODE='direct', VP_FORMATS='all', VP_REPS=reps(tier, 200, 20000), VP_PLACE=pl) for pl in (0, 1)]
+        run_modes(obs, b, dj, seed)
+        run_modes(obs, build_fieldmon(work, 'gcc-O2'), dj, seed, tag='direct-gcc-O2')
+        run_modes(obs, build_fieldmon(work, 'clang-O2'), dj, seed, tag='direct-clang-O2')
         gnote = guided(obs, work, 'get', tier, seed)
-        filt(obs, ['read:', 'raw:RAW:get'])
+        filt(obs, ['read:', 'raw:RAW:get', 'direct:'])
         cov = dict(distinct_nontrivial=named + raw, named_field_paths=named, raw_descriptor_shapes=raw, placements=list(PLACES),
                    rule='(at PDU byte offsets 0, 4, 1 and 2 from a 16-byte boundary) every spec field x {generic, dedicated} path x {zero, ones, checkerboards, field-saturated, field-cleared, '
                         'walking-1 and walking-0 over every header bit, every value of fields up to 12 bits wide, %d random buffers}; raw reader over start quadlet '
